@@ -248,6 +248,21 @@ CHECKS["C14"] = dict(
     note=TB + "Declared sizes > 10^6 are out of scope (as the property states); Go hang-freedom is tested, not proved; Stats, "
               "Gate.Level and MinBits are not carried by either format.")
 
+CHECKS["C18"] = dict(
+    category="proof", design_ref="DESIGN.md section 2 / C18",
+    technique="Lean 4 theorems on an executable byte-level codec model and an abstract-group protocol model + differential mutation-fuzz correspondence + implementation-side session/restart oracle",
+    text=("Proved: decode(encode m) = m with the documented sizes for Round1/2/3 and both session states (P-224/256/384/521 "
+          "length formulas); every decoder is total (ok | error, never panic) on arbitrary bytes; canonicity where it holds "
+          "with the exceptions enumerated as witnesses; session/curve mismatch rejected; resume_eq at every round boundary "
+          "for either party; rounds do not crash when stored points are on the curve (crash witnesses otherwise); the "
+          "evaluator's output is the packed plain evaluation of the circuit (composed from C01_decode and C06_co_delivers). "
+          "Tie: real Encode*/Decode* vs the Lean model on real and mutated payloads of all four curves (outcome classes "
+          "ok(fields, re-encoding) | error | panic). Oracle: digest = sha256(a xor b); byte-identical downstream messages "
+          "under every restart subset; no panic; foreign session/curve rejected."),
+    note=TB + "Partial: that the embedded 127k-gate circuit computes SHA-256(a xor b) is validated (Go Compute, harness evaluator "
+              "and Lean evaluator vs crypto/sha256), not proved; round functions tied by oracle and source facts (no EC "
+              "arithmetic in Lean); crypto/elliptic trusted.")
+
 NOT_YET = {}
 
 PROPS = [json.loads(l)["id"] for l in open(os.path.join(VERIF, "properties.jsonl"))]
